@@ -589,6 +589,7 @@ impl Prop for CapProp {
                 9..=20 => 4,
                 21..=23 => 5,
                 24..=31 => 6,
+                32..=39 => 7,
                 _ => 0,
             }
         } else {
@@ -602,7 +603,8 @@ impl Prop for CapProp {
                 3 => crate::gen::gen_big_slide(rng),
                 4 => crate::gen::gen_long_run(rng),
                 5 => crate::gen::gen_big_gap(rng),
-                _ => crate::gen::gen_lopsided(rng),
+                6 => crate::gen::gen_lopsided(rng),
+                _ => crate::gen::gen_composite(rng),
             };
             seq.old_range = (0, o.len());
             seq.new_range = (0, n.len());
@@ -615,13 +617,17 @@ impl Prop for CapProp {
                 2 => crate::gen::Alg::Lcs,
                 4 => *rng.pick(&[crate::gen::Alg::Myers, crate::gen::Alg::Patience, crate::gen::Alg::Myers]),
                 5 => crate::gen::Alg::Patience,
-                6 => *rng.pick(&[crate::gen::Alg::Myers, crate::gen::Alg::Patience]),
+                6 | 7 => *rng.pick(&[crate::gen::Alg::Myers, crate::gen::Alg::Patience]),
                 _ => *rng.pick(&crate::gen::ALGS),
             };
+            // a quadratic table is only affordable for moderate sizes
+            if giant == 7 && seq.old.len().saturating_mul(seq.new.len()) <= 1 << 20 && rng.chance(1, 3) {
+                seq.alg = crate::gen::Alg::Lcs;
+            }
             // the 16-bit id question only exists behind the text builder
             entry = match giant {
                 1 => CapEntry::TextLines,
-                4 if rng.chance(1, 2) => CapEntry::TextLines,
+                4 | 7 if rng.chance(1, 2) => CapEntry::TextLines,
                 _ => CapEntry::Slices,
             };
         }
